@@ -16,7 +16,7 @@ inductive Ctx where
   | tuple (pre : List Ty) (c : Ctx) (post : List Ty) (g : Option Rng)
   | struct (pre : List Member) (n : String) (o : Bool) (c : Ctx) (post : List Member)
   | variant (pre : List Ty) (c : Ctx) (post : List Ty)
-  | optional (c : Ctx) | notUndef (c : Ctx) | typ (c : Ctx) | sensitive (c : Ctx) | iterable (c : Ctx)
+  | optional (c : Ctx) | notUndef (c : Ctx) | typ (c : Ctx) | sensitive (c : Ctx) | iterable (c : Ctx) | iterator (c : Ctx)
 
 /-- plug a type into the hole -/
 def Ctx.fill : Ctx → Ty → Ty
@@ -31,6 +31,7 @@ def Ctx.fill : Ctx → Ty → Ty
   | .notUndef c, t => .notUndef (c.fill t)
   | .typ c, t => .typ (c.fill t)
   | .sensitive c, t => .sensitive (c.fill t)
+  | .iterator c, t => .iterator (c.fill t)
   | .iterable c, t => .iterable (c.fill t)
 
 /-- the sibling parts of the context are well-formed types; member names of a Struct on the path are pairwise different -/
@@ -42,7 +43,7 @@ def Ctx.WF (cfg : Cfg) : Ctx → Prop
   | .tuple pre c post _ => c.WF cfg ∧ ∀ t ∈ pre ++ post, Ty.WF cfg t
   | .struct pre n _ c post => c.WF cfg ∧ (pre.map (·.1) ++ n :: post.map (·.1)).Nodup ∧ ∀ m ∈ pre ++ post, Ty.WF cfg m.2.2
   | .variant pre c post => c.WF cfg ∧ ∀ t ∈ pre ++ post, Ty.WF cfg t
-  | .optional c | .notUndef c | .typ c | .sensitive c | .iterable c => c.WF cfg
+  | .optional c | .notUndef c | .typ c | .sensitive c | .iterable c | .iterator c => c.WF cfg
 
 theorem mono_ctx (a b : Ty) (h : asg cfg sfh a b = true) :
     ∀ (C : Ctx), C.WF cfg → asg cfg sfh (C.fill a) (C.fill b) = true := by
@@ -68,6 +69,7 @@ theorem mono_ctx (a b : Ty) (h : asg cfg sfh a b = true) :
   | notUndef c ih => intro w; exact mono_notUndef cfg sfh _ _ (ih w)
   | typ c ih => intro w; exact mono_typ cfg sfh _ _ (ih w)
   | sensitive c ih => intro w; exact mono_sensitive cfg sfh _ _ (ih w)
+  | iterator c ih => intro w; exact mono_iterator cfg sfh _ _ (ih w)
   | iterable c ih => intro w; exact mono_iterable cfg sfh _ _ (ih w)
 
 end Pcore.Lat
